@@ -115,7 +115,7 @@ def r1(ctx):
 
 def bound_fits(fn, a, decl, tgt_w, ivenv):
     """does comparison atom a = ('cmp', l, op, r) bound variable decl? returns 'upper'/'lower'/None"""
-    _, l, op, r = a
+    l, op, r = a[1], a[2], a[3]
     ld, rd = fn.ref_decl(l), fn.ref_decl(r)
     if ld == decl and rd != decl:
         var_left, other = True, r
@@ -271,8 +271,166 @@ def r2(ctx):
         ctx.ob('C07.R2', f, c, ok, 'writeRawValue(%s)' % ak, why or 'no dominating range or membership check of the value')
 
 
+NAN_EXCLUDERS = {'isfinite': True, 'std::isfinite': True, '__builtin_isfinite': True, 'isnormal': True,
+                 'isnan': False, 'std::isnan': False, '__builtin_isnan': False}
+
+
+def r4(ctx):
+    ctx.rule('C07.R4', 'NaN never passes a range test: on every feasible path on which a floating value is range-tested by '
+             'relational comparisons and the path then reaches acceptance (return RESULT_OK, or a conversion of that value to '
+             'an integer), the value has been proven not-NaN on that path - by isfinite()/!isnan(), or by a relational '
+             'comparison that evaluated true (all comparisons with NaN are false, so rejecting only on "x < lo" / "x > hi" '
+             'lets NaN through)', minimum=4, star=True)
+    fb = ctx.fb
+    ok_val = 0
+    ninst = 0
+    for fn in fb.functions:
+        if fn.relfile not in ('src/lib/ebus/datatype.cpp', 'src/lib/ebus/contrib/tem.cpp') or not fn.blocks:
+            continue
+        # floating variables (locals / params) of the function
+        fvars = {}
+        for p in fn.params:
+            if p.get('fl'):
+                fvars[p['decl']] = p['name']
+        for nid, v in fn.nodes.items():
+            if v['k'] == 'DeclStmt':
+                for dd in v.get('decls', []):
+                    if dd.get('fl'):
+                        fvars[dd['decl']] = dd['name']
+        # locals that are mere bounds (every definition is a computable constant expression such as
+        # exp2(m_bitCount - 1)) are not external values
+        ivenv = common.IntervalEnv(fn)
+        for d in list(fvars):
+            defs = [rhs for nid, dd, rhs, op, lhs in fn.assignments() if dd == d]
+            if defs and all(r is not None and common.interval(fn, r, ivenv) is not None for r in defs):
+                del fvars[d]
+        if not fvars:
+            continue
+        # is any of them range-tested in a branch condition?
+        tested_any = False
+        for b in fn.blocks.values():
+            if b.cond is None:
+                continue
+            for x in fn.walk(b.cond):
+                xv = fn.nodes[x]
+                if xv['k'] == 'BinaryOperator' and xv.get('op') in ('<', '>', '<=', '>='):
+                    if fn.ref_decl(xv['lhs']) in fvars or fn.ref_decl(xv['rhs']) in fvars:
+                        tested_any = True
+        if not tested_any:
+            continue
+        ctx.touch(fn)
+        # acceptance points: return of constant RESULT_OK, float->int conversions of a tracked variable
+        accept = {}
+        for r in fn.all('ReturnStmt'):
+            rv = fn.nodes[r].get('val')
+            if rv is not None and fn.val(rv) == ok_val and fn.nodes[fn.strip(rv)].get('rk') == 'enumerator':
+                accept[r] = ('return RESULT_OK', None)
+        for nid, v in fn.nodes.items():
+            if v.get('ck') == 'FloatingToIntegral':
+                for x in fn.walk(v['ch'][0]):
+                    d = fn.nodes[x].get('decl')
+                    if fn.nodes[x]['k'] == 'DeclRefExpr' and d in fvars:
+                        accept[nid] = ('conversion of %s to %s' % (fvars[d], v.get('t')), d)
+        if not accept:
+            continue
+        # map CFG elements to acceptance points
+        at_elem = {}
+        for a in accept:
+            p = fn.pos(a)
+            if p is None:
+                continue
+            blk = fn.blocks[p[0]]
+            if p[1] < len(blk.elems):
+                at_elem.setdefault(blk.elems[p[1]], []).append(a)
+        results = {}
+
+        def on_elem(user, e, path):
+            tested, notnan = user
+            v = fn.nodes[e]
+            # writes reset both facts for the variable, pure copies inherit
+            written = []
+            if v['k'] in ('BinaryOperator', 'CompoundAssignOperator') and v.get('op', '').endswith('=') and \
+                    v['op'] not in ('==', '!=', '<=', '>='):
+                d = fn.ref_decl(v['lhs'])
+                if d in fvars:
+                    written.append((d, v['rhs'] if v['op'] == '=' else None))
+            elif v['k'] == 'DeclStmt':
+                for dd in v.get('decls', []):
+                    if dd['decl'] in fvars:
+                        written.append((dd['decl'], dd.get('init')))
+            for d, rhs in written:
+                tested = frozenset(x for x in tested if x != d)
+                src = None
+                if rhs is not None:
+                    r = fn.nodes.get(fn.strip(rhs, casts=True), {})
+                    if r.get('k') == 'DeclRefExpr' and r.get('decl') in fvars:
+                        src = r['decl']
+                if src is not None and src in notnan:
+                    notnan = frozenset(set(notnan) | {d})
+                    if src in tested:
+                        tested = frozenset(set(tested) | {d})
+                else:
+                    notnan = frozenset(x for x in notnan if x != d)
+            if e in at_elem:
+                for a in at_elem[e]:
+                    what, only = accept[a]
+                    need = set(tested) if only is None else ({only} & set(tested))
+                    missing = need - set(notnan)
+                    if missing:
+                        results.setdefault(a, {'bad': None, 'good': 0})
+                        if results[a]['bad'] is None:
+                            results[a]['bad'] = (sorted(fvars[m] for m in missing), path)
+                    else:
+                        results.setdefault(a, {'bad': None, 'good': 0})['good'] += 1
+                if fn.nodes[e]['k'] == 'ReturnStmt':
+                    return None
+            return (tested, notnan)
+
+        def on_edge(user, b, j, dnf):
+            tested, notnan = user
+            t_all = None
+            n_all = None
+            for conj in dnf:
+                t_here, n_here = set(), set()
+                for a in conj:
+                    if a[0] == 'cmp' and a[2] in ('<', '>', '<=', '>='):
+                        for side in (a[1], a[3]):
+                            d = fn.ref_decl(side)
+                            if d in fvars:
+                                t_here.add(d)
+                                if a[4]:
+                                    n_here.add(d)
+                    elif a[0] == 'b':
+                        node = fn.nodes.get(fn.strip(a[3]), {})
+                        cal = node.get('callee') or ''
+                        if node.get('k') == 'CallExpr' and cal in NAN_EXCLUDERS and a[2] == NAN_EXCLUDERS[cal] and node.get('args'):
+                            arg = fn.strip(node['args'][0], casts=True)
+                            d = fn.nodes.get(arg, {}).get('decl')
+                            if d in fvars:
+                                n_here.add(d)
+                t_all = t_here if t_all is None else (t_all | t_here)
+                n_all = n_here if n_all is None else (n_all & n_here)
+            return (frozenset(set(tested) | (t_all or set())), frozenset(set(notnan) | (n_all or set())))
+
+        ex = Explorer(fn, on_elem=on_elem, on_edge=on_edge)
+        ex.run(fn.entry, 0, (frozenset(), frozenset()))
+        for a, r in sorted(results.items()):
+            ninst += 1
+            what = accept[a][0]
+            if r['bad']:
+                ctx.ob('C07.R4', fn, a, False, '%s in %s' % (what, fn.name.split('::')[-1]),
+                       'NaN in %s passes every range comparison on this path and is accepted' % ', '.join(r['bad'][0]),
+                       witness=ex.describe_path(r['bad'][1]))
+            else:
+                ctx.ob('C07.R4', fn, a, True, '%s in %s' % (what, fn.name.split('::')[-1]),
+                       'range-tested floating values are proven not-NaN on all %d path class(es)' % r['good'])
+    if ninst < 4:
+        raise AnalysisBroken('C07.R4: only %d acceptance points behind floating range tests found' % ninst)
+
+
 def run(ctx):
     r1(ctx)
     r2(ctx)
+    r4(ctx)
     import rules.C12 as c12
     c12.errno_rule(ctx, 'C07.R3')
